@@ -55,7 +55,7 @@ def run(chk, facts, tier):
     chk.rule('write-selected-by-has-write-access', 'values are stored only where has_write_access (or the presence of a write handler) selects it; implementations without write access refuse', floor=4)
     chk.rule('properties-byte', 'char_declaration_access sets each property bit from its own constant: read<-has_read_access, write<-has_write_access && !only_wwr, wwr<-(only_)write_without_response, notify, indicate', floor=1)
     chk.rule('bounded-write', 'bind_characteristic_value write: offset > sizeof(T) -> invalid_offset, offset + size > sizeof(T) -> invalid_attribute_value_length, then copy(buffer, buffer + size, ptr + offset)', floor=1)
-    chk.rule('bounded-read', 'reads test buffer_offset against the value size (invalid_offset) and clamp buffer_size to size - offset before copying', floor=3)
+    chk.rule('bounded-read', 'reads test buffer_offset against the value size (invalid_offset) and clamp buffer_size to size - offset before copying; fixed_value produces byte i as (Value >> 8 i) & 0xff from the constant in its own type', floor=4)
     chk.rule('write-success-only-from-write-path', 'in the dispatching characteristic_value_access of every value implementation a literal `success` is returned only on the read edge (args.type == read); '
              'a write is answered by the write function selected through has_write_access / the write handler - never by a shortcut in front of that selection', floor=2)
     for fn in facts.functions:
@@ -178,3 +178,23 @@ def run(chk, facts, tier):
             inv = [r for r in fn.returns() if strip_casts(ret_value(r)).n == 'invalid_offset']
             ok = len(clamp) == 1 and len(inv) == 1 and 'buffer_offset' in clamp[0].text()
             chk.instance('bounded-read', fn, '%s: invalid_offset test + clamp' % short, ok, '' if ok else 'read is not clamped to the value size', key=short)
+        if short == 'fixed_value':
+            # byte i of the value is (Value >> 8 i) & 0xff, taken from the full width constant
+            outs = [(val, st) for tgt, op, val, st in stores(fn.body) if op == '=' and strip_casts(tgt).k == 'UnaryOperator' and strip_casts(tgt).o == '*' and is_name(strip_casts(tgt).c[0], 'output')]
+            okb = len(outs) == 1
+            whyb = 'byte store not found'
+            if okb:
+                b = as_binop(outs[0][0])
+                sh = as_binop(b[1]) if b and b[0] == '&' and cval(b[2]) == 0xff else None
+                okb = bool(sh) and sh[0] == '>>'
+                whyb = 'bytes are not (Value >> 8 * i) & 0xff'
+                if okb:
+                    x = strip_casts(sh[1])
+                    full = x.n == 'Value' and not x.d.get('local')
+                    if not full and x.k in REF_KINDS and x.d.get('local'):
+                        ds = fn.body.find(lambda n: n.k == 'VarDecl' and n.n == x.n)
+                        full = len(ds) == 1 and (ds[0].t or '').replace('const ', '').strip() == 'T' and ds[0].c and strip_casts(ds[0].c[0]).n == 'Value'
+                    amt = as_binop(sh[2])
+                    okb = full and bool(amt) and amt[0] == '*' and {cval(amt[1]), cval(amt[2])} & {8} != set()
+                    whyb = 'the value bytes are taken from `%s` (%s), not from the constant Value in its own type T: for a T wider than that, the upper bytes of Read / Read Blob are wrong' % (x.text(), x.t)
+            chk.instance('bounded-read', fn, 'fixed_value: byte i = (Value >> 8 i) & 0xff from the full width constant', okb, '' if okb else whyb, key='fixed_value bytes')
